@@ -229,6 +229,8 @@ def rule_writers(ctx):
 
 
 RULES = [("probe", rule_probe), ("store", rule_store), ("writers", rule_writers)]
+# mate / check recognition rests on the legality filter and the check test
+RULES += engine.premise_rules("c01", ["filter", "probe", "check-mirror"])
 
 
 def run(tier):
